@@ -107,9 +107,8 @@ PROPS = {
         "jobs": [cache_job(r"\.(store|expiry|policy|callbacks|len)$", extra=["--w-ttl", "80"])],
         "branches": ["tick.reclaimed", "tick.recheck_skipped", "tick.idle", "insert.ttl", "insert.update", "remove.resident"],
         "assumptions": CACHE_ASSUME + ["the tick period (crossbeam tick / async-io Timer) is environment: ticks are placed by the schedule, with a virtual nanosecond clock",
-                                       "that every resident TTL entry is filed in the bucket of its deadline is checked after every step by comparing the bucket snapshot with the model and by the sweep-completeness monitor; a Lean proof of that bucket invariant is not part of this check yet"],
+                                       "guards of the completeness theorems, checked at run time by the driver on every tick of the implementation: the visited keys are a permutation of the keys of the due buckets, and the conflict hashes filed there pass the store's check (TickOk)"],
     },
-    # --- not yet claimed in MANIFEST (theorem modules pending): correspondence + monitors only ---
     "C02": {"module": "StrettoModel.Props.C02", "jobs": [cache_job(r"\.(store|ret|callbacks|buffer|clear)$", extra=["--collisions", "1", "--w-clear", "5"])],
             "branches": ["get.hit", "get.miss", "get.conflict_miss", "getmut.hit", "insert.update", "insert.new_over_resident", "remove.resident", "p.clear.buf1", "delete.other_conflict"],
             "assumptions": CACHE_ASSUME + ["values are opaque ids: the model carries a value id where the code carries a V; that the code hands back the V it stored under that id (no aliasing inside a shard's HashMap) is std's contract and is sampled by the correspondence (every returned value is compared)",
